@@ -190,7 +190,18 @@ pub fn verbatim_seed(rng: &mut Rng) -> String {
             | _ => format!("(f   {}\n {})", g.literal(), g.atom(depth)),
         }
     };
-    let bracket = *rng.pick(&["@[format(verbatim)]", "@[format(verbatim())]", "@[format(verbatim) /- c7 -/ ]", "@[format(verbatim,)]", "@[format( verbatim )]"]);
+    // One time in four the directive does not validate although it names the option (misspelt or repeated options, wrong
+    // argument shapes, out-of-range numbers next to it): such a directive is inert, its payload is formatted like any
+    // other term, and everything written inside it still has to come out.
+    let bracket = if rng.chance(1, 4) {
+        *rng.pick(&[
+            "@[format(verbatim, width(0))]", "@[format(verbatim, indnet(4))]", "@[format(verbatim(true))]", "@[format(verbatim, verbatim)]", "@[format(verbatim, 100)]",
+            "@[format(verbatim, width())]", "@[format(verbatim, width(10, 20))]", "@[format(width(\"80\"), verbatim)]", "@[format(Verbatim)]", "@[format(verbatim, layout(sideways))]",
+            "@[format(verbatim(), width(40), width(50))]", "@[format(verbatim, indent(-1))]", "@[format(verbatim, \"verbatim\")]", "@[format(verbatim) /- c7 -/, format(verbatim)]",
+        ])
+    } else {
+        *rng.pick(&["@[format(verbatim)]", "@[format(verbatim())]", "@[format(verbatim) /- c7 -/ ]", "@[format(verbatim,)]", "@[format( verbatim )]"])
+    };
     let v = format!("{} {}", bracket, payload);
     let outer = *rng.pick(&["width(20)", "width(1)", "width(200)", "indent(4)", "indent(1)", "layout(preserve)", "layout(ignore)", "parentheses(preserve)", "layout(blank_lines), width(30)"]);
     match rng.below(10) {
